@@ -24,7 +24,7 @@ import openaerostruct
 assert os.path.realpath(openaerostruct.__file__).startswith(os.path.realpath(REPO) + os.sep), (
     "openaerostruct imported from %s, expected %s" % (openaerostruct.__file__, REPO))
 
-DRIVER = os.path.join(VERIF, "lean", ".lake", "build", "bin", "oasdriver")
+DRIVER = os.environ.get("OAS_DRIVER") or os.path.join(VERIF, "lean", ".lake", "build", "bin", "oasdriver")
 
 SEED = int(os.environ.get("VERIF_SEED", "0"))
 TIER = os.environ.get("VERIF_TIER", "quick")
